@@ -6,6 +6,7 @@ from pydbml.classes import (Column, Enum, EnumItem, Expression, Index, Note, Pro
                             Table, TableGroup)
 from pydbml.parser.blueprints import (NoteBlueprint, ExpressionBlueprint, ColumnBlueprint)
 from contracts.database import name_taken, tables_named
+from contracts.table import column_at
 
 
 @abstract('str', heap=False)
@@ -63,6 +64,7 @@ class note_preformat:
 
 @contract('pydbml.parser.blueprints:NoteBlueprint.build')
 class note_build:
+    fresh_result = True
     properties = ('C01', 'C13', 'C11')
     params = {'self': 'NoteBlueprint'}
     pure = True
@@ -88,6 +90,7 @@ class sticky_preformat:
 
 @contract('pydbml.parser.blueprints:StickyNoteBlueprint.build')
 class sticky_build:
+    fresh_result = True
     properties = ('C01', 'C13')
     params = {'self': 'StickyNoteBlueprint'}
     pure = True
@@ -100,6 +103,7 @@ class sticky_build:
 
 @contract('pydbml.parser.blueprints:ExpressionBlueprint.build')
 class expression_build:
+    fresh_result = True
     properties = ('C01',)
     params = {'self': 'ExpressionBlueprint'}
     pure = True
@@ -111,6 +115,7 @@ class expression_build:
 
 @contract('pydbml.parser.blueprints:IndexBlueprint.build')
 class index_build:
+    fresh_result = True
     properties = ('C01', 'C05')
     params = {'self': 'IndexBlueprint'}
     pure = True
@@ -128,6 +133,7 @@ class index_build:
 
 @contract('pydbml.parser.blueprints:EnumItemBlueprint.build')
 class enum_item_build:
+    fresh_result = True
     properties = ('C01', 'C05')
     params = {'self': 'EnumItemBlueprint'}
     pure = True
@@ -141,6 +147,7 @@ class enum_item_build:
 
 @contract('pydbml.parser.blueprints:ProjectBlueprint.build')
 class project_build:
+    fresh_result = True
     properties = ('C01', 'C05', 'C11')
     params = {'self': 'ProjectBlueprint'}
     pure = True
@@ -159,8 +166,20 @@ class project_build:
 
 
 # ------------------------------------------------------------------------------------------ locate_table
+@abstract('Table')
+def located(parser, schema, name):
+    """the table PyDBMLParser.locate_table answers with (a name for its result; what it is, is the ensures)"""
+    return parser.locate_table(schema, name)
+
+
 @contract('pydbml.parser.parser:PyDBMLParser.locate_table')
 class locate_table:
+    returns_defines = True
+    assume_at_call = ('ensures_listed', 'ensures_by_full_name_first', 'ensures_else_by_alias_or_bare_key')
+
+    def returns(self, schema, name):
+        return located(self, schema, name)
+
     """A table is addressed by schema.name first and by alias second; nothing else is returned, and
     a miss is a TableNotFoundError (C05, C06)."""
     properties = ('C05', 'C06')
@@ -179,7 +198,8 @@ class locate_table:
             and not name_taken(self.database, name)
 
     def ensures_listed(self, schema, name, result):
-        return result in self.database.tables
+        # one of the listed table objects itself (identity, not an equal copy: C05)
+        return any(self.database.tables[i] is result for i in range(len(self.database.tables)))
 
     def ensures_by_full_name_first(self, schema, name, result):
         return not name_taken(self.database, schema + '.' + name) or \
@@ -188,3 +208,167 @@ class locate_table:
     def ensures_else_by_alias_or_bare_key(self, schema, name, result):
         return name_taken(self.database, schema + '.' + name) or \
             (result.full_name == name or (bool(result.alias) and result.alias == name))
+
+
+# ------------------------------------------------------------------------------------------ ColumnBlueprint
+def enum_key(type_text):
+    """(schema, name) a column type text names when read as an enum reference: split at the LAST dot"""
+    return (type_text.rsplit('.', 1)[0], type_text.rsplit('.', 1)[1]) if '.' in type_text else ('public', type_text)
+
+
+@contract('pydbml.parser.blueprints:ColumnBlueprint.build')
+class column_build:
+    """C01: every declared setting reaches the Column unchanged; a type text that names an enum of the
+    database (schema.name split at the last dot, default schema public) is replaced by the FIRST such
+    enum object itself (C05), any other type text stays text.  C08: total on any type text."""
+    fresh_result = True
+    properties = ('C01', 'C05', 'C08', 'C15')
+    params = {'self': 'ColumnBlueprint'}
+    ret = 'Column'
+
+    def requires_parser_ready(self):
+        return self.parser is None or self.parser.database is not None
+
+    def requires_text_type(self):
+        return isinstance(self.type, str)
+
+    def modifies(self):
+        return [loc(self, 'default'), loc(self, 'type')]
+
+    def ensures_fields(self, result):
+        return (fresh(result) and result.name == self.name and result.unique is self.unique
+                and result.not_null is self.not_null and result.pk is self.pk and result.autoinc is self.autoinc
+                and result.comment == self.comment and result.table is None and result.type is self.type
+                and result.default is self.default)
+
+    def ensures_default(self, result):
+        return (fresh(result.default) and isinstance(result.default, Expression)
+                and result.default.text == old(self.default).text) \
+            if isinstance(old(self.default), ExpressionBlueprint) else result.default is old(self.default)
+
+    def ensures_type_linked(self, result):
+        key = enum_key(old(self.type))
+        enums = self.parser.database.enums if self.parser is not None else []
+        return (any(result.type is enums[j] and (enums[j].schema, enums[j].name) == key
+                    and all((enums[m].schema, enums[m].name) != key for m in range(j)) for j in range(len(enums)))
+                if self.parser is not None and any((e.schema, e.name) == key for e in enums)
+                else result.type == old(self.type))
+
+    def ensures_note(self, result):
+        return result.note.parent is result and \
+            result.note.text == (normalised(self.note.text) if self.note is not None else '')
+
+    def ensures_properties(self, result):
+        return (result.properties is self.properties) if self.properties else \
+            (fresh(result.properties) and len(result.properties) == 0)
+
+
+# ------------------------------------------------------------------------------------------ ReferenceBlueprint
+def addressed(db, schema, name, t):
+    """`t` is a listed table that the pair (schema, name) addresses: by schema.name (or an alias spelled
+    so) when some listed table answers to it, else by the bare name as full name or alias (C05)."""
+    return (any(db.tables[i] is t for i in range(len(db.tables)))
+            and ((t.full_name == schema + '.' + name or (bool(t.alias) and t.alias == schema + '.' + name))
+                 if name_taken(db, schema + '.' + name)
+                 else (t.full_name == name or (bool(t.alias) and t.alias == name))))
+
+
+def bound_side(parser, schema, table, col_text, cols):
+    """`cols` are, in order, the columns named by the comma-separated endpoint text, every one an element
+    of the column list of the table (schema, table) addresses, found there under exactly that name."""
+    return (addressed(parser.database, schema, table, located(parser, schema, table))
+            and len(cols) == len(col_text.split(','))
+            and all(cols[j] is column_at(located(parser, schema, table), col_text.split(',')[j].strip('() '))
+                    and cols[j].name == col_text.split(',')[j].strip('() ')
+                    and any(located(parser, schema, table).columns[m] is cols[j]
+                            for m in range(len(located(parser, schema, table).columns)))
+                    for j in range(len(cols))))
+
+
+@contract('pydbml.parser.blueprints:ReferenceBlueprint.build')
+class reference_build:
+    """C01/C05: the Reference carries the declared type, flags, name, comment and actions, and its endpoints
+    are the Column objects *of the database's tables* (not copies) that the endpoint texts name, in order.
+    C06: it returns only if both tables and every named column exist; otherwise one of the three
+    exceptions below escapes (which one is pinned by C06.B.rules on real documents)."""
+    fresh_result = True
+    properties = ('C01', 'C05', 'C06')
+    params = {'self': 'ReferenceBlueprint'}
+    pure = True
+    ret = 'Reference'
+    from pydbml.exceptions import TableNotFoundError, ColumnNotFoundError
+    allowed = (TableNotFoundError, ColumnNotFoundError, RuntimeError)
+
+    def requires_db(self):
+        return self.parser is None or self.parser.database is None or tables_named(self.parser.database)
+
+    def ensures_known(self, result):
+        return (self.table1 is not None and self.table2 is not None and self.col1 is not None
+                and self.col2 is not None and self.parser is not None and self.parser.database is not None)
+
+    def ensures_fields(self, result):
+        return (fresh(result) and result.type == self.type and result._inline is self.inline
+                and result.name == (self.name if self.name else None) and result.comment == self.comment
+                and result.on_update == self.on_update and result.on_delete == self.on_delete
+                and result.database is None)
+
+    def ensures_side1(self, result):
+        return bound_side(self.parser, self.schema1, self.table1, self.col1, result.col1)
+
+    def ensures_side2(self, result):
+        return bound_side(self.parser, self.schema2, self.table2, self.col2, result.col2)
+
+
+# ------------------------------------------------------------------------------------------ TableGroupBlueprint
+def group_item_schema(text):
+    """a group item is `schema.name` (exactly one dot) or a bare name in the public schema"""
+    return text.split('.')[0] if len(text.split('.')) == 2 else 'public'
+
+
+def group_item_table(text):
+    return text.split('.')[1] if len(text.split('.')) == 2 else text.split('.')[0]
+
+
+def group_item_bound(parser, text, t):
+    """`t` is the table the item text addresses: the located one, an element of the database's table list itself"""
+    return (t is located(parser, group_item_schema(text), group_item_table(text))
+            and any(parser.database.tables[m] is t for m in range(len(parser.database.tables))))
+
+
+@contract('pydbml.parser.blueprints:TableGroupBlueprint.build')
+class table_group_build:
+    """C01/C05: the group lists, in order, the database's own Table objects that the item texts address
+    (schema.name, or a bare name / alias); C06: it returns only if every item is found and no table is
+    listed twice (TableNotFoundError / ValidationError otherwise; which one is pinned by C06.B.rules)."""
+    fresh_result = True
+    properties = ('C01', 'C05', 'C06')
+    params = {'self': 'TableGroupBlueprint'}
+    pure = True
+    ret = 'TableGroup'
+    from pydbml.exceptions import TableNotFoundError, ValidationError
+    allowed = (TableNotFoundError, ValidationError, RuntimeError)
+
+    def requires_db(self):
+        return self.parser is None or self.parser.database is None or tables_named(self.parser.database)
+
+    def loop0_modifies(self, items):
+        return [loc_list(items)]
+
+    def loop0_invariant(self, items, i):
+        return (fresh(items) and len(items) == i and (i == 0 or self.parser.database is not None)
+                and all(group_item_bound(self.parser, self.items[j], items[j]) for j in range(i)))
+
+    def ensures_known(self, result):
+        return self.parser is not None and (len(self.items) == 0 or self.parser.database is not None)
+
+    def ensures_fields(self, result):
+        return (fresh(result) and result.name == self.name and result.comment == self.comment
+                and result.color == self.color and result.database is None)
+
+    def ensures_items(self, result):
+        return (fresh(result.items) and len(result.items) == len(self.items)
+                and all(group_item_bound(self.parser, self.items[j], result.items[j]) for j in range(len(self.items))))
+
+    def ensures_note(self, result):
+        return (result.note is None) if self.note is None else \
+            (fresh(result.note) and result.note.parent is result and result.note.text == normalised(self.note.text))
